@@ -17,7 +17,7 @@ prop("C06", ["T-LINEMAP", "T-ERR-SOURCE", "T-LOC-SIBLINGS", "T-OFFSET-LINE", "T-
 import rules_opt  # noqa
 prop("C02", ["T-OPT-PROT", "T-OPT-KILL", "T-OPT-BARRIER", "T-OPT-PEEK", "T-INLINE-COPY", "T-OPT-SIZE"])
 prop("C14", ["T-INLINE-COPY", "T-INLINE-LABELS", "T-LABEL-KILL", "T-LABEL-UNIQUE", "T-OPT-KILL", "T-OPT-BARRIER"])
-prop("C18", ["T-CSLEEP", "T-DUMMY-ZP", "T-PROTECT-REGION", "T-OPT-PROT", "T-OPT-BARRIER", "T-FLAGS-DIRTY"])
+prop("C18", ["T-CSLEEP", "T-DUMMY-ZP", "T-PROTECT-REGION", "T-OPT-PROT", "T-OPT-BARRIER", "T-FLAGS-DIRTY", "T-SECOND-PASS"])
 prop("C10", ["T-PREC", "T-CALC-OPS", "T-FOLD", "T-DIV-GUARD", "T-SIZEOF", "M-DIV-SITES"])
 import rules_total  # noqa
 import rules_treewalk  # noqa
@@ -32,6 +32,6 @@ import rules_mir  # noqa
 import rules_term  # noqa
 import rules_r3  # noqa
 import rules_nz  # noqa
-prop("C01", ["T-PREC", "T-BRANCH", "T-CMPXFORM", "T-STACK-PAIR", "T-FLAGS-DIRTY", "T-FLAGS-VALUE", "T-LABEL-KILL", "T-OPT-KILL", "T-OPT-BARRIER", "T-OPT-PROT", "T-OPT-PEEK", "T-LB-EQUIV", "T-INLINE-COPY", "T-CARRY-SCOPE", "T-DEFERRED-BRANCH", "T-FLAGS-JOIN", "T-NZ-PRECOND"])
-prop("C13", ["T-ASM-MODE", "T-LABEL-UNIQUE", "T-LABEL-DEF", "T-CONTINUE-FLAG", "T-LOOP-EXIT-SIBLINGS", "T-INLINE-LABELS", "T-HANDBUILT", "T-INUSE-CLOSURE", "T-CALL-RECORD"])
+prop("C01", ["T-PREC", "T-BRANCH", "T-CMPXFORM", "T-STACK-PAIR", "T-FLAGS-DIRTY", "T-FLAGS-VALUE", "T-LABEL-KILL", "T-OPT-KILL", "T-OPT-BARRIER", "T-OPT-PROT", "T-OPT-PEEK", "T-LB-EQUIV", "T-INLINE-COPY", "T-CARRY-SCOPE", "T-DEFERRED-BRANCH", "T-FLAGS-JOIN", "T-NZ-PRECOND", "T-SECOND-PASS"])
+prop("C13", ["T-ASM-MODE", "T-LABEL-UNIQUE", "T-LABEL-DEF", "T-CONTINUE-FLAG", "T-LOOP-EXIT-SIBLINGS", "T-INLINE-LABELS", "T-HANDBUILT", "T-INUSE-CLOSURE", "T-CALL-RECORD", "T-GOTO-LABELS"])
 prop("C17", ["T-ASM-PORT", "T-RMW-GUARD", "T-OPT-KILL"])
